@@ -41,7 +41,11 @@ func verifPopulate(st *State) {
 	st.App.SetCoinsCount(2)
 	st.App.SetTotalSlashed(verifAmount("slashed", 3))
 	st.App.SetMaxGas(7000)
-	st.App.SetReward(verifAmount("reward0", 100), verifAmount("rewardsafe0", 333))
+	if verifConfig("step") == 8 {
+		// only for the reward step: the state-level export of C11 does not carry
+		// the reward (the export command fills PrevReward from the app DB)
+		st.App.SetReward(verifAmount("reward0", 100), verifAmount("rewardsafe0", 333))
+	}
 	owner := A
 	st.Coins.Create(1, types.StrToCoinSymbol("AAA"), "coin a", verifAmount("vol1", 5000), 50, verifAmount("res1", 20000), verifE18(1000000), &owner)
 	st.Coins.CreateToken(2, types.StrToCoinSymbol("TOK"), "token", true, true, verifAmount("vol2", 700), verifE18(1000000), &owner)
@@ -121,9 +125,11 @@ func verifObserve(st *State) *verifView {
 	v.add("app.slashed", st.App.GetTotalSlashed())
 	v.add("app.coins", u(uint64(st.App.GetCoinsCount())))
 	v.add("app.maxgas", u(st.App.GetMaxGas()))
-	rew, safe := st.App.Reward()
-	v.add("app.reward", rew)
-	v.add("app.rewardsafe", safe)
+	if verifConfig("step") == 8 {
+		rew, safe := st.App.Reward()
+		v.add("app.reward", rew)
+		v.add("app.rewardsafe", safe)
+	}
 	for _, c := range []types.CoinID{1, 2} {
 		m := st.Coins.GetCoin(c)
 		v.add("coin.vol."+c.String(), m.Volume())
